@@ -407,6 +407,8 @@ fn bin_cy(op: &str) -> &'static str {
         "ge" => ">=",
         "and" => "AND",
         "or" => "OR",
+        "xor" => "XOR",
+        "in" => "IN",
         _ => "?",
     }
 }
@@ -426,6 +428,7 @@ impl Ex {
                 "isnull" => format!("({}) IS NULL", a.cypher()),
                 _ => format!("({}) IS NOT NULL", a.cypher()),
             },
+            Ex::Bin(op, a, b) if *op == "coalesce" => format!("coalesce({}, {})", a.cypher(), b.cypher()),
             Ex::Bin(op, a, b) => format!("({} {} {})", a.cypher(), bin_cy(op), b.cypher()),
             Ex::Ite(c, t, e) => format!("CASE WHEN {} THEN {} ELSE {} END", c.cypher(), t.cypher(), e.cypher()),
             Ex::Idx(a, i) => format!("({})[{}]", a.cypher(), i.cypher()),
